@@ -264,6 +264,27 @@ def run(chk):
     if got != (3, -3):
         chk.violation("impl", "loader-wrong-module", f"two files named dupname.py in different directories: the second load returned {got} instead of each file's own function (3, -3)", {**case, "observed": str(got)})
 
+    # the same file edited in place between two loads (a user refining a constraint): the second load must see the file as it is now
+    for rep in range(3):
+        pth = os.path.join(d1, f"edited{rep}.py")
+        case = {"helper": "load_functional_constraints", "file": f"edited{rep}.py written, loaded, overwritten, loaded again"}
+        chk.case(case)
+        try:
+            open(pth, "w").write(f"def edited{rep}(x, y, **kwargs):\n    return x - y\n")
+            f1 = K.load_functional_constraints(pth)
+            v1 = f1(5, 2)
+            open(pth, "w").write(f"def edited{rep}(x, y, **kwargs):\n    return 10 * y - x + {rep}\n")
+            os.utime(pth, (os.path.getmtime(pth) + 5, os.path.getmtime(pth) + 5))      # not the same time stamp as the first version
+            f2 = K.load_functional_constraints(pth)
+            got = (v1, f2(5, 2))
+        except Exception as e:
+            got = "EXC " + type(e).__name__ + ": " + str(e)[:60]
+        finally:
+            while d1 in sys.path:
+                sys.path.remove(d1)
+        if got != (3, 15 + rep):
+            chk.violation("impl", "loader-stale-file", f"a constraint file edited in place and loaded again: values {got}, expected (3, {15 + rep})", {**case, "observed": str(got)})
+
     # ---------------- E. user-defined constraints
     for _ in range(200 if thorough else 50):
         grid = rng.random() < 0.5
